@@ -133,19 +133,19 @@ func (c *Ctx) headerWriter(enc, esc *ssa.Function) {
 			}
 			return absint.Lin{}, false
 		}
-		a.OnWrite = func(st *absint.State, dst *absint.Slice, width int64, val absint.Term) {
-			if width != 2 || !dst.Off.IsConst() {
-				writes = append(writes, wr{dst.Off, false, fmt.Sprintf("unexpected %d-byte write at %s", width, dst.Off), "?"})
+		wordWrite := func(st *absint.State, off absint.Lin, width int64, val absint.Term) {
+			if width != 2 || !off.IsConst() {
+				writes = append(writes, wr{off, false, fmt.Sprintf("unexpected %d-byte write at %s", width, off), "?"})
 				return
 			}
 			vi, _ := val.(absint.Int)
-			switch dst.Off.C {
+			switch off.C {
 			case 0:
 				rid, _ := fld(st, "ReplyID").(absint.Int)
 				id, _ := fld(st, "ID").(absint.Int)
 				ok := st.Entails(eqC(vi.L, rid.L)) && !st.Feasible(absint.Con{L: rid.L, Rel: absint.EQ}) ||
 					st.Entails(absint.Con{L: rid.L, Rel: absint.EQ}) && st.Entails(eqC(vi.L, id.L))
-				writes = append(writes, wr{dst.Off, ok, "the message ID written is " + a.Render(val) + "; expected ReplyID, or ID when ReplyID is 0", "id"})
+				writes = append(writes, wr{off, ok, "the message ID written is " + a.Render(val) + "; expected ReplyID, or ID when ReplyID is 0", "id"})
 			case 2:
 				pf, _ := fld(st, "Property", "*", "PacketFragmented").(absint.Int)
 				bl, _ := fld(st, "Property", "*", "BodyDayaLen").(absint.Int)
@@ -195,13 +195,22 @@ func (c *Ctx) headerWriter(enc, esc *ssa.Function) {
 				case !okWord:
 					d = "the word written at offset 2 is not the encoding of the property fields: " + strings.Join(got, " | ")
 				}
-				writes = append(writes, wr{dst.Off, okPF && okLen && okWord, d, "property"})
+				writes = append(writes, wr{off, okPF && okLen && okWord, d, "property"})
 			default:
-				writes = append(writes, wr{dst.Off, false, fmt.Sprintf("unexpected write at offset %s", dst.Off), "?"})
+				writes = append(writes, wr{off, false, fmt.Sprintf("unexpected write at offset %s", off), "?"})
 			}
+		}
+		a.OnWrite = func(st *absint.State, dst *absint.Slice, width int64, val absint.Term) {
+			wordWrite(st, dst.Off, width, val)
 		}
 		a.OnAppendUint = func(f2 *ssa.Function, site ssa.Instruction, st *absint.State, dst *absint.Slice, width int64, val absint.Term, le bool) {
 			if !encFam[f2] {
+				return
+			}
+			// the first two words of the head appended instead of stored into a 4-byte slice: the same obligations as for
+			// the PutUint16 form
+			if width == 2 && !le && dst.Len.IsConst() && (dst.Len.C == 0 || dst.Len.C == 2) {
+				wordWrite(st, dst.Len, 2, val)
 				return
 			}
 			// binary.BigEndian.AppendUint16(data, h.PlatformSerialNumber): the serial, big-endian
